@@ -215,6 +215,19 @@ def print_program(tests, rng=None):
     return PRELUDE + "\n\n".join(pr.funcs) + "\n\n" + "\n".join(main) + "\n"
 
 
+def print_program_toplevel(body, rng=None):
+    """One void test whose body is the MAIN CHUNK itself (root scope: `return` emits `return 0`, the defers
+    of the root block run at the end of nelua_main).  The end marker is itself a root-scope defer."""
+    pr = Printer(rng)
+    pr.mode.append("void")
+    lines = pr.block(body, 0, True)
+    pr.mode.pop()
+    head = ["nscript = #arg - 1",
+            "for i=2,#arg do script[i-2] = tointeger(arg[i]) end",
+            "defer print('Z') end"]
+    return PRELUDE + "\n\n".join(pr.funcs) + "\n\n" + "\n".join(head + lines) + "\n"
+
+
 # ------------------------------------------------------------------ tokenizer of the emitted C
 TOKEN_RE = re.compile(r"""
    (?P<defer>\{\ /\*\ defer\ \*/)
